@@ -45,6 +45,7 @@ class Eng:
         from dtaidistance.subsequence import localconcurrences as lcm
         self.np, self.dtw, self.lcm = np, dtw, lcm
         assert dtw.dtw_cc is not None and lcm.dtw_cc is not None
+        self.fresh_cache = {}
 
 
 def matrix_case(acc, E, case, slices):
@@ -147,6 +148,31 @@ def run_history(acc, E, cfg, hist, it_args):
     used = set()
     its = {}
     nmatches = 0
+
+    def make():
+        return lcm.local_concurrences(s1, s2, gamma=cfg['gamma'], tau=cfg['tau'], delta=cfg['delta'], delta_factor=cfg['delta_factor'],
+                                      penalty=cfg['penalty'], window=cfg['window'], use_c=cfg['use_c'], compact=cfg['compact'])
+
+    def fresh_first(a):
+        """What a fresh object answers: first match of kbest_matches(**a) (None if there is none)."""
+        key = ('first', repr(sorted(cfg.items())), repr(sorted(a.items())))
+        if key not in E.fresh_cache:
+            if len(E.fresh_cache) > 4000:
+                E.fresh_cache.clear()
+            try:
+                m = next(make().kbest_matches(**a))
+                E.fresh_cache[key] = [(int(i), int(j)) for i, j in m.path]
+            except StopIteration:
+                E.fresh_cache[key] = None
+        return E.fresh_cache[key]
+
+    def fresh_store():
+        key = ('store', repr(sorted(cfg.items())))
+        if key not in E.fresh_cache:
+            ms = make().kbest_matches_store(k=2, minlen=2, buffer=0, restart=True, keep=False)
+            E.fresh_cache[key] = [[(int(i), int(j)) for i, j in m.path] for m in ms]
+        return E.fresh_cache[key]
+
     for op in hist:
         if op == 'R':
             lc.reset()
@@ -155,8 +181,10 @@ def run_history(acc, E, cfg, hist, it_args):
             used.clear()
             continue
         new = []
+        restarted = None
         if op in ('N1', 'N2'):
             a = it_args[0 if op == 'N1' else 1]
+            first_step = op not in its
             if op not in its:
                 its[op] = lc.kbest_matches(**a)
                 if a['restart']:
@@ -165,12 +193,22 @@ def run_history(acc, E, cfg, hist, it_args):
                 m = next(its[op])
                 new.append((m, a['minlen']))
             except StopIteration:
-                pass
+                m = None
+            if first_step and a['restart']:
+                # restart=True: "start searching from start, ignore previous calls" - same first match as a fresh object
+                want = fresh_first(a)
+                got = None if m is None else [(int(i), int(j)) for i, j in m.path]
+                if got != want:
+                    return 'first match of a restarting iterator is %r, a fresh object gives %r' % (got, want), nmatches
         else:
             keep = op == 'SK'
             used.clear()              # kbest_matches_store iterates with restart=True
             ms = lc.kbest_matches_store(k=2, minlen=2, buffer=0, restart=True, keep=keep)
             new.extend((m, 2) for m in ms)
+            got = [[(int(i), int(j)) for i, j in m.path] for m in ms]
+            want = fresh_store()
+            if got != want:
+                return 'kbest_matches_store (restart=True) returned %r, a fresh object gives %r' % (got, want), nmatches
         for m, minlen in new:
             nmatches += 1
             path = [(int(i), int(j)) for i, j in m.path]
@@ -287,7 +325,7 @@ def run(ctx):
         bounds={'alphabet': list(univ.alphabet(univ.BASE3, ctx.seed)), 'history_data': '4 series pairs (2 self-comparisons) x 2 (tau,delta,delta_factor) x penalty{None,.1} x window{None,2}',
                 'iterator_args': 'k{None,1,2} x minlen{1,2} x buffer{0,-1,1 (not compact)} x restart{T,F}'},
         assumptions=['reference = literal transcription of the recurrence in C18; excluded cells are -inf; tolerance 1e-12 (exp is not exact)',
-                     'an un-restarted history ends when the mask is reset: first step of an iterator created with restart=True, kbest_matches_store (restart=True; and its end when keep=False), reset()',
+                     'after a restart (restart=True iterator, kbest_matches_store) the first match / the stored matches must equal those of a fresh object', 'an un-restarted history ends when the mask is reset: first step of an iterator created with restart=True, kbest_matches_store (restart=True; and its end when keep=False), reset()',
                      'the value returned next to the matrix and psi-relaxation of the affinity routine are not described by C18 and not judged'],
         t0=ctx.t0)
 
